@@ -38,7 +38,10 @@ TrackNext(h, m, t, o) ==
                                       /\ ~(NextOK(o) /\ Playable(t, s))
                                       /\ ~(o.op = "Next" /\ Cardinality(PlayableSet(m)) < 2)}
   IN [s \in keep \cup joined |->
-        IF s \in joined THEN [others |-> Others(t, s), passed |-> FALSE, activeAtJoin |-> m.seat[s].active]
+        IF s \in joined THEN [others |-> Others(t, s), passed |-> FALSE,
+                               \* F8 shape: the seat was occupied when the blinds of the running hand were set (so it was
+                               \* rightly left active then) and has been vacated since
+                               vacatedSince |-> m.seat[s].active /\ s \in h.occAtNext]
         ELSE [h.track[s] EXCEPT !.passed = @ \/ (NextOK(o) /\ m.dealer # NULL /\ s \in BetweenCW(m, m.dealer, t.dealer))]]
 \* (with fewer than two playable seats the letting-in rule of C17 governs instead: waiting players are let in at once)
 LateBadSeats(h, m, t, o) ==
@@ -47,10 +50,10 @@ LateBadSeats(h, m, t, o) ==
           /\ t.seat[s].player # NULL /\ Others(t, s) = h.track[s].others /\ m.dealer # NULL
           /\ LET passed == h.track[s].passed \/ s \in BetweenCW(m, m.dealer, t.dealer)
              IN ~(Playable(t, s) <=> (passed /\ ~t.seat[s].reserved))}
-\* the clause name tells whether the seat taken was still ACTIVE when it was taken (it had been occupied when the
-\* blinds of the running hand were set and was vacated since) - the shape of known finding F8
+\* the clause name tells whether the seat taken had been OCCUPIED when the blinds of the running hand were set and
+\* was vacated since (it is then still active) - the shape of known finding F8, and of nothing else
 C08_lateJoinerBad(h, m, t, o) ==
-  {IF h.track[s].activeAtJoin THEN "C08.lateJoiner.seatStillActive" ELSE "C08.lateJoiner" : s \in LateBadSeats(h, m, t, o)}
+  {IF h.track[s].vacatedSince THEN "C08.lateJoiner.seatVacatedSinceBlindsSet" ELSE "C08.lateJoiner" : s \in LateBadSeats(h, m, t, o)}
 
 (* ---------------------------------- C17 ---------------------------------- *)
 C17_button(m, t, o) == (o.op = "Next" /\ Cardinality(PlayableSet(m)) >= 2) =>
@@ -105,12 +108,15 @@ ConcBad(pre, calls, post, flags) ==
             /\ (calls[k].seat = -1 => FreeSeats(post) = {})
       THEN {} ELSE {"C18.conc.refusedOnlyWhenTaken"})
 
-HistS0 == [joins |-> 0, leaves |-> 0, track |-> [s \in {} |-> 0]]
-HistSJump(t) == [joins |-> Cardinality(Occupied(t)), leaves |-> 0, track |-> [s \in {} |-> 0]]
+\* occAtNext : seats occupied right after the last successful move to the next hand (all seats after a jump:
+\*             nothing is then attributed to the F8 shape by mistake... conservatively none)
+HistS0 == [joins |-> 0, leaves |-> 0, track |-> [s \in {} |-> 0], occAtNext |-> {}]
+HistSJump(t) == [joins |-> Cardinality(Occupied(t)), leaves |-> 0, track |-> [s \in {} |-> 0], occAtNext |-> {}]
 HistSNext(h, m, t, o) ==
   [joins |-> h.joins + (IF o.op = "Join" /\ o.res = "" THEN 1 ELSE 0),
    leaves |-> h.leaves + (IF o.op = "Leave" /\ o.res = "" THEN 1 ELSE 0),
-   track |-> TrackNext(h, m, t, o)]
+   track |-> TrackNext(h, m, t, o),
+   occAtNext |-> IF NextOK(o) THEN Occupied(t) ELSE h.occAtNext]
 
 N(name, holds) == IF holds THEN {} ELSE {name}
 FailedSeat(h, h2, m, t, o, props) ==
